@@ -574,7 +574,7 @@ func nilObligations(w *World, p *Prog, fns []*ssa.Function, l *obs) {
 		case "E":
 			l.ok(fid, construct, pos, "error proven non-nil at the hand-over (consumers test it first: see consumer obligations)", true, "handover-"+classKind(h.class))
 		default:
-			if cls, _ := c.receivedFrom(resolve(h.node)); cls != "" {
+			if cls, _ := c.receivedFrom(resolve(h.node)); cls != "" && c.contract[cls] {
 				l.ok(fid, construct, pos, "forwards a node it received from hand-over class "+cls+" unchanged; whether that class keeps the contract is decided at its producers", false, "handover-"+classKind(h.class))
 				continue
 			}
